@@ -48,6 +48,7 @@ pub(crate) struct World {
     pub consensus: ckb_chain_spec::consensus::Consensus,
     /// requests the client has sent and the peer has not answered yet
     pub inbox: Vec<(PeerIndex, Sent)>,
+    pub last_n: u64,
 }
 
 const INTERVAL: u64 = 10;
@@ -61,7 +62,7 @@ pub(crate) fn build(plan: &Plan) -> World {
     let main = BodyChain::new(&mut rng, flat_plan(8, 8, 5), plan.len + 2, 1 + plan.seed, &mut gen);
     let fork = main.fork(&mut rng, plan.fork_at, plan.len - plan.fork_at + 5, 9_000 + plan.seed, pool.clone(), 2);
     let storage = new_storage("verif-c08");
-    World { net: None, storage, main, fork, pool, on_fork: false, height: 0, peer: PeerIndex::new(1), consensus: dummy_consensus(), inbox: Vec::new() }
+    World { net: None, storage, main, fork, pool, on_fork: false, height: 0, peer: PeerIndex::new(1), consensus: dummy_consensus(), inbox: Vec::new(), last_n: LAST_N }
 }
 
 impl World {
@@ -70,7 +71,7 @@ impl World {
     /// process start: everything in memory is rebuilt from the store
     pub(crate) fn start(&mut self) {
         let genesis = self.main.chain.genesis_block();
-        self.net = Some(Net::over(self.storage.clone(), genesis, &self.consensus, LAST_N, 1, INTERVAL));
+        self.net = Some(Net::over(self.storage.clone(), genesis, &self.consensus, self.last_n, 1, INTERVAL));
     }
 
     fn mock_hashes(&mut self) {
